@@ -1,10 +1,181 @@
 package main
 
 import (
+	"encoding/json"
+	"flag"
 	"fmt"
-	_ "golang.org/x/tools/go/packages"
-	_ "golang.org/x/tools/go/ssa"
-	_ "golang.org/x/tools/go/ssa/ssautil"
+	"os"
+	"path"
+	"runtime/debug"
+	"sort"
+	"strings"
+	"time"
+
+	"ibcverif/interp"
+	"ibcverif/load"
+	"ibcverif/rules"
 )
 
-func main() { fmt.Println("ok") }
+const verifDir = "/verif"
+
+func main() {
+	os.Setenv("PATH", "/opt/veriftools/go1.26.8/bin:"+os.Getenv("PATH"))
+	for _, kv := range []string{"GOFLAGS=-mod=mod", "GOPROXY=off", "GOSUMDB=off", "GOTOOLCHAIN=local"} {
+		k, v, _ := strings.Cut(kv, "=")
+		os.Setenv(k, v)
+	}
+	os.Unsetenv("GOWORK")
+	if len(os.Args) < 2 {
+		fmt.Println("usage: ibcverif check <id> [--tier quick|thorough] | list | manifest | dump <funckey> [glob]")
+		os.Exit(2)
+	}
+	switch os.Args[1] {
+	case "dump":
+		dump(os.Args[2:])
+	case "check":
+		os.Exit(check(os.Args[2:]))
+	case "list":
+		ids := make([]string, 0)
+		for id := range rules.Registry {
+			ids = append(ids, id)
+		}
+		sort.Strings(ids)
+		for _, id := range ids {
+			fmt.Println(id, rules.Registry[id].Title)
+		}
+	case "manifest":
+		manifest()
+	default:
+		fmt.Println("unknown command")
+		os.Exit(2)
+	}
+}
+
+func check(args []string) (code int) {
+	if len(args) == 0 {
+		fmt.Println("check: missing property id")
+		return 2
+	}
+	id := args[0]
+	fs := flag.NewFlagSet("check", flag.ExitOnError)
+	tier := fs.String("tier", "quick", "quick|thorough")
+	repo := fs.String("repo", "/repo", "repository under analysis")
+	fs.Parse(args[1:])
+	if t := os.Getenv("VERIF_TIER"); t != "" && *tier == "quick" && false {
+		*tier = t
+	}
+	p := rules.Registry[id]
+	if p == nil {
+		fmt.Println("unknown property", id)
+		return 2
+	}
+	started := time.Now()
+	c := rules.NewCtx(p, *tier)
+	c.RepoDir = *repo
+	func() {
+		defer func() {
+			if r := recover(); r != nil {
+				c.Add(&rules.Obligation{Rule: id + "/analyser", Construct: "panic", Status: rules.Undecided, Detail: fmt.Sprintf("analyser panic: %v\n%s", r, debug.Stack())})
+			}
+		}()
+		p.Run(c)
+	}()
+	return c.Finish(verifDir, started)
+}
+
+func manifest() {
+	ids := make([]string, 0)
+	for id := range rules.Registry {
+		ids = append(ids, id)
+	}
+	sort.Strings(ids)
+	type chk map[string]any
+	var checks []chk
+	for _, id := range ids {
+		p := rules.Registry[id]
+		checks = append(checks, chk{
+			"property_id":   id,
+			"quick_cmd":     "./check.sh " + id + " quick",
+			"thorough_cmd":  "./check.sh " + id + " thorough",
+			"evidence_file": "/verif/evidence/" + id + ".json",
+			"engine":        "ibcverif",
+			"level_claimed": map[string]string{"category": "other", "text": p.LevelText, "design_ref": p.Design},
+			"level_note":    p.Note,
+			"technique":     p.Technique,
+		})
+	}
+	b, _ := json.MarshalIndent(checks, "", " ")
+	fmt.Println(string(b))
+}
+
+func dump(args []string) {
+	fs := flag.NewFlagSet("dump", flag.ExitOnError)
+	dir := fs.String("dir", "/repo", "module dir")
+	pat := fs.String("pkgs", "./modules/...", "package patterns")
+	rets := fs.Bool("rets", false, "print return alternatives")
+	fs.Parse(args)
+	t0 := time.Now()
+	P, err := load.Load(load.Config{Dir: *dir, Patterns: strings.Split(*pat, ",")})
+	if err != nil {
+		fmt.Println("load error:", err)
+		os.Exit(1)
+	}
+	fmt.Printf("loaded %d root pkgs, %d funcs in %.1fs\n", len(P.Pkgs), P.NumFuncs, time.Since(t0).Seconds())
+	if fs.NArg() == 0 {
+		var ks []string
+		for k := range P.Funcs {
+			ks = append(ks, k)
+		}
+		sort.Strings(ks)
+		for _, k := range ks {
+			fmt.Println(k)
+		}
+		return
+	}
+	fn := P.Funcs[fs.Arg(0)]
+	if fn == nil {
+		fmt.Println("no such function", fs.Arg(0))
+		os.Exit(1)
+	}
+	glob := "*"
+	if fs.NArg() > 1 {
+		glob = fs.Arg(1)
+	}
+	e := interp.New(P)
+	t1 := time.Now()
+	rr := e.Run(fn)
+	fmt.Printf("interpreted in %.2fs, %d steps, %d events, %d rets\n", time.Since(t1).Seconds(), e.Steps, len(rr.Events), len(rr.Rets))
+	for _, ev := range rr.Events {
+		g := strings.ReplaceAll(glob, "/", "\x01")
+		k := strings.ReplaceAll(ev.Key, "/", "\x01")
+		if ok, _ := path.Match(g, k); !ok {
+			continue
+		}
+		fmt.Printf("\n== %s %s at %s in %s (inline=%v)\n", ev.Kind, ev.Key, P.Pos(ev.Instr.Pos()), load.FuncKey(ev.Fn), ev.Inline)
+		for i, a := range ev.Args {
+			fmt.Printf("   arg%d: %s\n", i, e.T.String(a))
+		}
+		for _, at := range ev.Atoms {
+			fmt.Printf("   | %s\n", e.T.String(at))
+		}
+	}
+	if *rets {
+		for i, r := range rr.Rets {
+			fmt.Printf("\n== ret %d\n", i)
+			for j, x := range r.Results {
+				fmt.Printf("   res%d: %s\n", j, e.T.String(x))
+			}
+			for _, at := range r.Atoms {
+				fmt.Printf("   | %s\n", e.T.String(at))
+			}
+		}
+	}
+	var ws []string
+	for w, n := range e.Warnings {
+		ws = append(ws, fmt.Sprintf("%s x%d", w, n))
+	}
+	sort.Strings(ws)
+	for _, w := range ws {
+		fmt.Println("warn:", w)
+	}
+}
